@@ -29,6 +29,21 @@ CHECKS = {
             "Held on generated layers (fan_in/fan_out up to 4096).", "torch.optim.Adam first-step semantics with eps=0"),
 }
 
+CHECKS.update({
+    "C03": ("fitted scale factors (as C01/C02) multiplied by term counts MEASURED on the PyTorch reference op with all-ones / one-hot operands; Monte-Carlo for dropout",
+            "4/C03", "Held on generated shapes; counts are measured, never assumed.", "variance of a sum of N independent unit-variance terms is N"),
+    "C04": ("numerical integration (240001-point quadrature / Gauss-Hermite product) and fixed-seed Monte-Carlo (>= 2^20 elements) of the real functions' outputs and autograd derivatives against the statement's bands",
+            "4/C04", "Held on a 161-point mult grid and log-uniform/corner hyper-parameters.", "quadrature error < 1e-6, sampling error < 0.5%"),
+    "C08": ("3-way differential monitor (module / harness functional form / torch.nn twin with the same parameters) + construction-time rejection probes + init statistics + tag table",
+            "4/C08", "Held on generated option assignments of 15 module classes + depth containers.", "torch.nn twins define option semantics; 6-sigma init bounds"),
+    "C09": ("history monitor with executable shadow model, checked after every step; icontract postconditions on the copy/unpickle hooks",
+            "4/C09", "Thorough tier enumerates ALL histories of length <= 4 over a 13-letter alphabet x 4 tags x 3 depths.", "shadow model of documented step semantics"),
+    "C13": ("differential monitor against an independent exact format oracle (Fraction table + float64 neighbour arithmetic), with idempotence/monotonicity/symmetry/sanitizer checks",
+            "4/C13", "Thorough tier covers every float32 bit pattern for E4M3 and E5M2 (exhaustive) and all 168 formats on structured inputs.", "float64 exactness on float32 values"),
+    "C14": ("random source substituted by an enumerator of all 2^srbits draws: probabilities are counted exactly; spy on the real generator for independence",
+            "4/C14", "All draws enumerated for every judged (input, format, srbits); inputs sampled.", "torch.randint is the only random source"),
+})
+
 PENDING = {}
 
 
